@@ -111,6 +111,7 @@ func runC14(c *Ctx, r *Report) {
 	c14Clamp(c, r)
 	c14HeaderProgress(c, r)
 	c14Widths(c, r)
+	c14BarClamp(c, r)
 }
 
 // ---------------------------------------------------------------- palettes
@@ -607,4 +608,57 @@ func fieldOwnerName(p *packagesPkg, v *types.Var) string {
 		}
 	}
 	return ""
+}
+
+// c14BarClamp: in barWriteRunes the block count val*maxLen/maxVal stays
+// within maxLen only if val was clamped to maxVal first.
+func c14BarClamp(c *Ctx, r *Report) {
+	const rule = "C14-b/bar-clamp"
+	fi := c.MustFunc(r, rule, termunicodePkg, "barWriteRunes")
+	if fi == nil {
+		return
+	}
+	info := fi.Pkg.TypesInfo
+	n := 0
+	ast.Inspect(fi.Decl.Body, func(x ast.Node) bool {
+		be, ok := x.(*ast.BinaryExpr)
+		if !ok || be.Op != token.QUO {
+			return true
+		}
+		div := identObj(info, be.Y)
+		mul, ok := ast.Unparen(be.X).(*ast.BinaryExpr)
+		if div == nil || !ok || mul.Op != token.MUL {
+			return true
+		}
+		n++
+		// one factor must have been clamped to the divisor: `if f > div { f = div }` as a top-level statement before
+		clamped := false
+		for _, f := range []ast.Expr{mul.X, mul.Y} {
+			fo := identObj(info, f)
+			if fo == nil {
+				continue
+			}
+			for _, st := range fi.Decl.Body.List {
+				is, ok := st.(*ast.IfStmt)
+				if !ok || is.Pos() > be.Pos() || is.Else != nil || len(is.Body.List) != 1 {
+					continue
+				}
+				ce, ok := ast.Unparen(is.Cond).(*ast.BinaryExpr)
+				if !ok {
+					continue
+				}
+				gt := (ce.Op == token.GTR || ce.Op == token.GEQ) && identObj(info, ce.X) == fo && identObj(info, ce.Y) == div
+				lt := (ce.Op == token.LSS || ce.Op == token.LEQ) && identObj(info, ce.Y) == fo && identObj(info, ce.X) == div
+				as, ok := is.Body.List[0].(*ast.AssignStmt)
+				if (gt || lt) && ok && len(as.Lhs) == 1 && identObj(info, as.Lhs[0]) == fo && identObj(info, as.Rhs[0]) == div {
+					clamped = true
+				}
+			}
+		}
+		r.Check(clamped, rule, fi.Name, exprStr(be), c.Pos(be.Pos()), "guard: the scaled factor is clamped to the divisor first, so the quotient is at most the maximum length",
+			"the bar length "+exprStr(be)+" is computed without clamping the value to the maximum first: a segment larger than the running maximum (negative sibling values) draws a bar wider than the maximum width")
+		return true
+	})
+	r.Floor(rule, 1, "barWriteRunes")
+	_ = n
 }
